@@ -198,6 +198,18 @@ class Switch(Generic[R], GenerativeFunction[R]):
         idx, branch_args = _clamp_index(args[0], len(self.branches)), args[1:]
         self._check_args_match_branches(branch_args)
 
+        if isinstance(idx, int):
+            # With a concrete index the trace's choice map holds the selected
+            # branch's choices only, so the other branches cannot even be traced
+            # against it (their addresses are missing): assess that branch alone.
+            score, retval = self.branches[idx].assess(sample, branch_args[idx])
+            # (the other branches only contribute their return dtype, as in `simulate`)
+            retvals = list(
+                retval if i == idx else f.__abstract_call__(*f_args)
+                for i, (f, f_args) in enumerate(zip(self.branches, branch_args))
+            )
+            return score, tree_choose(idx, retvals)
+
         fs = list(f.assess for f in self.branches)
         f_args = list((sample, args) for args in branch_args)
 
